@@ -226,16 +226,17 @@ class Check(BaseCheck):
 
             ``failure_cases``: subset of the check_object that failed.
         """
-        if (
-            self.name is not None
-            and self.is_builtin_check(self.name)
-            and isinstance(self._check_fn, Dispatcher)
-        ):
+        if isinstance(
+            self._check_fn, Dispatcher
+        ) and self.is_builtin_check(self._check_fn.__name__):
             # we need to reload the function here in case additional
             # type signatures have been registered for a specific built-in
-            # check. A user-defined check function that merely carries the
-            # name of a built-in check is left alone.
-            self._check_fn = self.get_builtin_check_fn(self.name)
+            # check. The registry is keyed by the built-in check the
+            # dispatcher implements: the name given to this Check only names
+            # it, and a user-defined check function is left alone.
+            self._check_fn = self.get_builtin_check_fn(
+                self._check_fn.__name__
+            )
         backend = self.get_backend(check_obj)(self)
         return backend(check_obj, column)
 
